@@ -227,6 +227,15 @@ def check_c14(prop, tier, seed):
             v.tool_error('Reload deviation %s not detected by the model' % d)
         else:
             v.extra.setdefault('model_negative_control', []).append('%s violates %s' % (d, r2.invariant_violated))
+    # any number of file edits, reloads, PAUSE/RESUME and transactions: an invariant that implies the five model invariants
+    # is inductive for the design (Apalache, symbolic); it is not when an invalid file still replaces CONFIG
+    for name, cinit, init, inv, length, expect in (('initial', 'ConstInit', 'Init', 'IndInv', 0, 'ok'), ('step', 'ConstInit', 'IndInit', 'IndInv', 1, 'ok'),
+                                                   ('implies_properties', 'ConstInit', 'IndInit', 'Props', 0, 'ok'),
+                                                   ('negative_control_invalid_file_applied', 'ConstInitInvalidApplied', 'IndInit', 'IndInv', 1, 'violated')):
+        got = tlc.run_apalache('ReloadApa', cinit, init, inv, length, timeout=900)
+        v.extra.setdefault('apalache_inductive_invariant', []).append({'check': name, 'result': got})
+        if got != expect:
+            v.tool_error('Apalache %s: expected %s, got %s' % (name, expect, got))
     # random histories (the simulator also evaluates Emit on every candidate last step, so each behaviour yields several)
     res = tlc.run_tlc('Gen_Reload', 'Gen_Reload.cfg', workers=1, simulate={'quick': 8000, 'thorough': 60000}[tier], depth=40,
                       seed=seed, timeout=900)
